@@ -33,7 +33,7 @@ def run(repo, chk, tier):
     m = fn.module
     frame, args = fn.params[0], fn.params[1]
     inner = {q.split('.')[-1]: f for q, f in m.funcs.items() if q.startswith('compute_combined_features.')}
-    comb = next((f for f in inner.values() if any(isinstance(c, ast.Call) and (m.dotted(c.func) or '').startswith('xxhash') or (isinstance(c, ast.Call) and (m.dotted(c.func) or '') in NARROW | WIDE) for c in ast.walk(f.node))), None)
+    comb = next((f for f in inner.values() if any(isinstance(r.value, ast.Tuple) and len(r.value.elts) == 2 for r in returns(f)) and any(isinstance(c, ast.Call) and isinstance(c.func, ast.Attribute) and c.func.attr in ('apply', 'map') for c in ast.walk(f.node))), None)
     if comb is None:
         chk.unsure('C10.1', 'R12', fn.site(), 'combine_features', 'the function that hashes the joint value was not found')
         return
@@ -43,6 +43,9 @@ def run(repo, chk, tier):
     append_only(repo, chk, fn, frame)
 
 
+CACHED = {}
+
+
 def _part_encoder_ok(enc, frame):
     """length_prefixed(feature): values = frame[feature].astype(str); return values.str.len().astype(str) + SEP + values"""
     m = enc.module
@@ -50,7 +53,15 @@ def _part_encoder_ok(enc, frame):
     rets = returns(enc)
     if len(rets) != 1:
         return False, 'encoder has no single return'
-    t = term_of(enc, rets[0].value, inline=True)
+    rv = rets[0].value
+    CACHED[enc.qualname] = False
+    if isinstance(rv, ast.Subscript) and isinstance(rv.value, ast.Name):
+        # memoised encoder: CACHE[feature] = <expr>; return CACHE[feature]
+        stores = [n for n in own_nodes(enc.node) if isinstance(n, ast.Assign) and isinstance(n.targets[0], ast.Subscript) and ast.unparse(n.targets[0]) == ast.unparse(rv)]
+        if len(stores) == 1:
+            CACHED[enc.qualname] = True
+            rv = stores[0].value
+    t = term_of(enc, rv, inline=True)
     E = lambda s: expected_term(m, s)
     val = f"{frame}[{p}].astype(str)"
     for sep in (':', '|', '#', ';', ',', ' ', '/', '\x1f', '_', '-'):
@@ -108,6 +119,9 @@ def key_encoding(repo, chk, fn, comb, inner, frame):
                     return ('sep', sub[1], f'constant separator {l.value!r} without escaping')
         return ('unknown', t, 'unrecognised part')
     kind0, elem0, how0 = classify(inits[0][1], None)
+    e0 = inits[0][1]
+    if isinstance(e0, ast.Call) and isinstance(e0.func, ast.Name) and e0.func.id in inner and CACHED.get(inner[e0.func.id].qualname) and any(isinstance(a[2], ast.AugAssign) for a in adds):
+        chk.bad('C10.1c', 'R11', comb.site(adds[0][2]), f'{ast.unparse(inits[0][2])} ... {ast.unparse(adds[0][2])}', f'the key starts as the object returned by the memoising encoder `{e0.func.id}` (a cached Series shared between combinations) and is then extended in place with `+=`: the cached encoding of the first constituent accumulates the other constituents, so later combinations that start with the same feature encode extra columns and rows that agree on the named constituents get different values')
     loop = None
     results = [(kind0, elem0, how0, inits[0][2])]
     for _, e, node in adds:
@@ -136,18 +150,27 @@ def key_encoding(repo, chk, fn, comb, inner, frame):
 
 def digest(repo, chk, fn, comb):
     m = fn.module
-    hs = [c for c in calls(comb) if (m.dotted(c.func) or '') in WIDE | NARROW or (m.dotted(c.func) or '').startswith('xxhash.')]
-    par = parents(comb.node)
-    for c in hs:
+    hs = [(comb, c) for c in calls(comb) if (m.dotted(c.func) or '') in WIDE | NARROW or (m.dotted(c.func) or '').startswith('xxhash.')]
+    # digest helpers passed by reference: key.apply(internal_hash)
+    for c in calls(comb, attr=('apply', 'map')):
+        for a in c.args:
+            if isinstance(a, (ast.Name, ast.Attribute)):
+                tgt = repo.find_func(m.dotted(a) or '')
+                if tgt is not None:
+                    hs += [(tgt, x) for x in calls(tgt) if (tgt.module.dotted(x.func) or '') in WIDE | NARROW or (tgt.module.dotted(x.func) or '').startswith('xxhash.')]
+    for owner, c in hs:
+        m = owner.module
+        par = parents(owner.node)
+        comb_site = owner
         d = m.dotted(c.func)
-        chk.expect(d in WIDE, 'C10.2a', 'R8', comb.site(c), ast.unparse(c)[:80], 'digest has at least 64 bits', f'{d} has fewer than 64 bits: distinct value tuples collide far more often than the statement allows')
+        chk.expect(d in WIDE, 'C10.2a', 'R8', comb_site.site(c), ast.unparse(c)[:80], 'digest has at least 64 bits', f'{d} has fewer than 64 bits: distinct value tuples collide far more often than the statement allows')
         a0 = c.args[0] if c.args else None
-        enc = isinstance(a0, ast.Call) and isinstance(a0.func, ast.Attribute) and a0.func.attr == 'encode'
-        chk.expect(enc, 'C10.6', 'API', comb.site(c), ast.unparse(c)[:80], 'the key is encoded to bytes before hashing', 'xxhash >= 4 raises TypeError on str input: interaction features cannot be built')
+        enc = (isinstance(a0, ast.Call) and isinstance(a0.func, ast.Attribute) and a0.func.attr == 'encode') or (owner is not comb and '.encode(' in ast.unparse(owner.node))
+        chk.expect(enc, 'C10.6', 'API', comb_site.site(c), ast.unparse(c)[:80], 'the key is encoded to bytes before hashing', 'xxhash >= 4 raises TypeError on str input: interaction features cannot be built')
         # digest used in full
         p = par.get(c)
         full = isinstance(p, ast.Attribute) and p.attr in ('hexdigest', 'intdigest', 'digest') and isinstance(par.get(p), ast.Call) and not isinstance(par.get(par.get(p)), ast.Subscript)
-        chk.expect(full, 'C10.2b', 'R8', comb.site(c), ast.unparse(par.get(par.get(p)) if isinstance(p, ast.Attribute) and par.get(par.get(p)) is not None and not isinstance(par.get(par.get(p)), ast.stmt) else c)[:100], 'the whole digest is the feature value', 'the digest is truncated / post-processed: fewer than 64 bits distinguish the value tuples')
+        chk.expect(full, 'C10.2b', 'R8', comb_site.site(c), ast.unparse(par.get(par.get(p)) if isinstance(p, ast.Attribute) and par.get(par.get(p)) is not None and not isinstance(par.get(par.get(p)), ast.stmt) else c)[:100], 'the whole digest is the feature value', 'the digest is truncated / post-processed: fewer than 64 bits distinguish the value tuples')
     chk.require_count('digest constructions in combine_features', len(hs), 1)
 
 
